@@ -26,6 +26,9 @@ fn ssa(src: &str) -> String {
   if !d.loc_mismatch.is_empty() {
     return format!("locinv {}", d.loc_mismatch.join(","));
   }
+  if !d.tparam_mismatch.is_empty() {
+    return format!("tpinv {}", d.tparam_mismatch.join(","));
+  }
   let res = d.render(&r, &ssa_errors);
   format!("{}=> {}", d.out, res)
 }
